@@ -4,8 +4,8 @@ Spec: specs/Functional.tla (the answers of sampler / pruner / study loop / best_
 storage-independent abstract history), FunctionalMC (tiny exhaustive lemma), FunctionalTrace (conformance).
 The TLA+ part is deliberately thin (no sampler mathematics); the weight is on differential runs of the real code:
 a scenario (seeded define-by-run program x seeded sampler x pruner) is run on several storage configurations, with and
-without a pre-existing other study (trial-id offset), as one optimize call and split into several, and twice on the
-same configuration.  All runs of a scenario are ONE trace; TLC finds the first answer that contradicts an earlier run.
+without a pre-existing other study (trial-id offset), as one optimize call and split into several, twice on the
+same configuration, and in fresh interpreters with another PYTHONHASHSEED (`python -m harness.c09` is the child).  All runs of a scenario are ONE trace; TLC finds the first answer that contradicts an earlier run.
 Python only generates the programs, drives optuna and maps floats to tokens by exact bit-pattern lookup.
 
 This module also holds the scenario generator / runner shared with C13 (harness/c13.py).
@@ -16,14 +16,18 @@ import concurrent.futures as cf
 import copy
 import json
 import math
+import os
 import random
 import shutil
 import struct
+import subprocess
+import sys
 import tempfile
 import time
 
 from . import common, storage_driver as sd, tlc
 
+CHILD_TAG = "C09CHILD "
 K9_SIG = "ga-parent-cache:trial-id-used-as-list-index"
 GRPC_ORDER_SIG = "grpc:trial-params-order-not-preserved"
 ORDER_CONSUMERS = {"qmc", "qmc_ns", "brute"}     # samplers whose algorithm reads the ORDER of FrozenTrial.params
@@ -40,6 +44,7 @@ MO_ONLY = {"nsgaiii"}
 SO_ONLY = {"gp"}
 
 
+CAT, COMMON_NAMES, THEN_NAMES, ELSE_NAME = "kind", ["alpha", "momentum"], ["depth", "dropout"], "gamma"
 REPORT_OFFSETS = [1.5, -0.5, 1.0, 0.25, -1.25]      # exact dyadics, neither increasing nor decreasing
 
 
@@ -76,13 +81,13 @@ def gen_program(rng, *, discrete=False, nobj=1, reports=None, exact=False, n_tri
     exact=True (C13): every objective / reported value is a small dyadic rational (multiples of 1/4096, magnitude
     < 64) made pairwise distinct by a term in the trial number, so that negation, percentiles at 25/50/75 and sums of
     a few of them are exact in binary floating point."""
-    names = ["x", "y", "z", "w"]
-    common_ps = [_param(rng, names[i], discrete) for i in range(rng.choice([1, 2]))]
-    then_ps = [_param(rng, "a", discrete)]
-    else_ps = [] if rng.random() < 0.3 else [_param(rng, "b", discrete)]
+    # multi-letter names: the iteration order of a SET of such names depends on the interpreter's string-hash seed
+    common_ps = [_param(rng, COMMON_NAMES[i], discrete) for i in range(rng.choice([1, 2]))]
+    then_ps = [_param(rng, THEN_NAMES[i], discrete) for i in range(1 if discrete else rng.choice([1, 2, 2]))]
+    else_ps = [] if rng.random() < 0.3 else [_param(rng, ELSE_NAME, discrete)]
     w = lambda: rng.choice([0.5, -1.0, 0.25, 2.0, -0.75, 1.0])  # noqa: E731
     weights = {p["name"]: [w(), w()] for p in common_ps + then_ps + else_ps}
-    weights["c"] = [w(), w()]
+    weights[CAT] = [w(), w()]
     return {
         "c_choices": rng.choice([["p", "q"], ["p", "q", "r"]]),
         "common": common_ps, "then": then_ps, "else": else_ps,
@@ -118,7 +123,7 @@ def _num(p, v):
 
 
 def grid_space(prog):
-    sp = {"c": list(prog["c_choices"])}
+    sp = {CAT: list(prog["c_choices"])}
     for p in prog["common"] + prog["then"] + prog["else"]:
         if p["kind"] == "cat":
             sp[p["name"]] = list(p["choices"])
@@ -315,10 +320,10 @@ def run_scenario(sc, conf, workdir):
                 st["id_ne"] = True
             try:
                 nums = []
-                c = guarded("suggest", {"name": "c", "val": None}, lambda: trial.suggest_categorical("c", prog["c_choices"]))
-                ev.append({"op": "suggest", "name": "c", "s": "ok", "val": float(prog["c_choices"].index(c))})
-                st["names"].append("c")
-                nums.append(("c", float(prog["c_choices"].index(c))))
+                c = guarded("suggest", {"name": CAT, "val": None}, lambda: trial.suggest_categorical(CAT, prog["c_choices"]))
+                ev.append({"op": "suggest", "name": CAT, "s": "ok", "val": float(prog["c_choices"].index(c))})
+                st["names"].append(CAT)
+                nums.append((CAT, float(prog["c_choices"].index(c))))
                 ps = prog["common"] + (prog["then"] if c == prog["c_choices"][0] else prog["else"])
                 for p in ps:
                     v = guarded("suggest", {"name": p["name"], "val": None}, lambda: _suggest(trial, p))
@@ -516,18 +521,43 @@ def conf_label(c):
         s += "/" + ",".join(d[:3] for d in c["dirs"])
     if c.get("rep"):
         s += f"#{c['rep']}"
+    if c.get("hashseed") is not None:
+        s += f"/fresh-interpreter PYTHONHASHSEED={c['hashseed']}"
     return s
 
 
 # ---------------------------------------------------------------------------------------------------
 # execution of a plan on a process pool
 # ---------------------------------------------------------------------------------------------------
+def run_in_fresh_interpreter(sc, conf, wd):
+    """The same run in a NEW interpreter whose string-hash seed is conf["hashseed"] ("every time" includes the next
+    start of the script).  optuna is imported from $VERIF_REPO exactly as in this process (common.use_repo); the child
+    prints its raw events as one JSON line (floats round-trip exactly through repr)."""
+    env = dict(os.environ)
+    env.update({"PYTHONHASHSEED": str(conf["hashseed"]), "PYTHONPATH": str(common.ROOT), "VERIF_REPO": common.repo_path(),
+                "GRPC_VERBOSITY": "NONE"})
+    child_conf = {k: v for k, v in conf.items() if k != "hashseed"}
+    p = subprocess.run([sys.executable, "-m", "harness.c09"], input=json.dumps({"sc": sc, "conf": child_conf, "wd": wd}),
+                       capture_output=True, text=True, env=env, cwd=str(common.ROOT), timeout=1800)
+    for line in reversed(p.stdout.splitlines()):
+        if line.startswith(CHILD_TAG):
+            return json.loads(line[len(CHILD_TAG):])
+    raise tlc.MachineryError(f"fresh-interpreter run of {sc['id']} failed (rc={p.returncode}):\n{p.stderr[-2000:]}")
+
+
+def _child_main():
+    req = json.loads(sys.stdin.read())
+    r = run_scenario(req["sc"], req["conf"], req["wd"])
+    r["hashseed_seen"] = os.environ.get("PYTHONHASHSEED")
+    sys.stdout.write(CHILD_TAG + json.dumps(r) + "\n")
+
+
 def _task(args):
     sc, conf, base = args
     wd = tempfile.mkdtemp(prefix="c09-", dir=base)
     t0 = time.time()
     try:
-        r = run_scenario(sc, conf, wd)
+        r = run_in_fresh_interpreter(sc, conf, wd) if conf.get("hashseed") is not None else run_scenario(sc, conf, wd)
         r["wall"] = time.time() - t0
         return r
     finally:
@@ -542,7 +572,8 @@ def execute(scenarios, workers=16):
     def cost(ij):
         sc = scenarios[ij[0]]
         c = sc["confs"][ij[1]]
-        return (sc["sampler"] == "gp") * 10 + (c["storage"] in SLOW) * 3 + c["storage"].startswith("grpc") + len(c.get("copy_to") or [])
+        return ((sc["sampler"] == "gp") * 10 + (c["storage"] in SLOW) * 3 + c["storage"].startswith("grpc")
+                + len(c.get("copy_to") or []) + 2 * (c.get("hashseed") is not None))
     tasks.sort(key=cost, reverse=True)
     for sc in scenarios:
         sc["runs"] = [None] * len(sc["confs"])
@@ -732,13 +763,15 @@ def confs_for(ctx, sc, k):
     split3 = [a, b, n - a - b]
     if sc["sampler"] == "gp" and ctx.quick:
         return [{"storage": "inmemory"}, {"storage": "inmemory", "rep": 1},
-                {"storage": "journal_file", "other": 2, "split": split2}]
+                {"storage": "journal_file", "other": 2, "split": split2}, {"storage": "inmemory", "hashseed": 1}]
     confs = [
         {"storage": "inmemory", "copy_to": []},
         {"storage": "inmemory", "rep": 1},
         {"storage": "inmemory", "other": 3, "split": split2},
         {"storage": "journal_file", "other": 2},
         {"storage": "grpc_inmemory", "split": split3},
+        {"storage": "inmemory", "hashseed": 1},
+        {"storage": "inmemory", "hashseed": 2, "split": split2},
     ]
     slow = ["rdb", "cached_rdb", "grpc_rdb"]
     if ctx.quick:
@@ -759,6 +792,8 @@ def confs_for(ctx, sc, k):
         for key in ("other", "split", "rep"):
             if not c.get(key):
                 c.pop(key, None)
+    if not ctx.quick:
+        confs.append({"storage": "journal_file", "other": 2, "hashseed": 3})
     return confs
 
 
@@ -778,8 +813,8 @@ def run(ctx):
     ctx.rule = ("scenario = seeded define-by-run program (categorical + 1-2 common parameters + one conditional branch, "
                 "0-4 reports with should_prune, deterministic failure rule, user attr) x seeded sampler x pruner; each "
                 "scenario is run on in-memory (twice), in-memory with another study (id offset) split in two optimize "
-                "calls, journal file with another study, gRPC proxy split in three, and RDB/cached RDB/gRPC->RDB/"
-                "gRPC->journal; all runs of a scenario are one trace judged by TLC (FunctionalTrace); distinct = distinct "
+                "calls, journal file with another study, gRPC proxy split in three, in-memory in two FRESH interpreters with "
+                "PYTHONHASHSEED=1 and 2 (one of them split), and RDB/cached RDB/gRPC->RDB/gRPC->journal; all runs of a scenario are one trace judged by TLC (FunctionalTrace); distinct = distinct "
                 "(scenario, configuration) runs with at least one sampler-dependent answer")
     r = tlc.require_model("FunctionalMC", "FunctionalMC_q" if ctx.quick else "FunctionalMC_t", must_cover=MC_ACTIONS)
     ctx.model(r, "FunctionalMC")
@@ -873,3 +908,7 @@ def replay(ctx, data):
         sc["confs"] = data["confs"]
     execute([sc], workers=4)
     judge(ctx, [sc], "replay", selftest=False)
+
+
+if __name__ == "__main__":
+    _child_main()
